@@ -250,7 +250,7 @@ let exec (line : string) =
        let (rc, (objs, levels)) = read_table () in
        (* the public hwloc_topology_dup refreshes the copy (/repo fix "refresh the distances and memory attribute caches of
           a duplicated topology"): hwloc_internal_distances_dup (the model's dup), then refresh against the copy's objects *)
-       if rc = 0 then topo := Some (refresh (set_objects (dup t) objs levels false))
+       if rc = 0 then topo := Some (topology_dup t objs levels)
      | "xml", Some t ->
        drop_user_state ();
        (* the new object table comes after the rc line in the transcript: predict first *)
